@@ -6,15 +6,70 @@ from harness.framework import cnatlist, pmap
 from harness.runs import pairs_term, pick_config, run_with_events, trace_term
 
 
+def store_scenario(rng):
+    """a lazy store: region store into a larger target (whole chunks, regions ending in the short last chunk), store into an
+    existing array of other chunking, to_zarr of a rechunked source; returns (description, builder(spec) -> arrays)"""
+    import numpy as np
+
+    nd = rng.choice([1, 2, 2])
+    tshape = tuple(rng.randint(3, 11) for _ in range(nd))
+    tch = tuple(rng.randint(1, max(1, n // 2)) for n in tshape)
+    kind = rng.choice(["region", "region", "existing-other-chunks", "rechunked-to-path"])
+    region = None
+    if kind == "region":
+        region = []
+        for n, c in zip(tshape, tch):
+            nb = -(-n // c)
+            b0 = rng.randrange(nb)
+            b1 = nb if rng.random() < 0.5 else rng.randint(b0 + 1, nb)      # often up to the (short) last chunk
+            if b1 == nb and nb >= 2 and rng.random() < 0.6:
+                b0 = rng.randrange(nb - 1)                                   # ... and over at least two blocks
+            region.append((b0 * c, min(b1 * c, n)))
+        sshape = tuple(b - a for a, b in region)
+    else:
+        sshape = tshape
+    desc = {"store": kind, "target_shape": tshape, "target_chunks": tch, "region": region}
+
+    def build(spec):
+        import cubed
+        import cubed.array_api as xp
+        import zarr
+
+        data = np.arange(int(np.prod(sshape)), dtype="float64").reshape(sshape) + 1
+        if kind == "region":
+            src = xp.asarray(data, chunks=tch, spec=spec) + 0
+            za = zarr.create_array(store=zarr.storage.MemoryStore(), shape=tshape, dtype="float64", chunks=tch, fill_value=0)
+            return cubed.store(src, za, regions=tuple(slice(a, b) for a, b in region), compute=False)
+        if kind == "existing-other-chunks":
+            src = xp.asarray(data, chunks=tuple(rng.randint(1, n) for n in sshape), spec=spec) + 0
+            za = zarr.create_array(store=zarr.storage.MemoryStore(), shape=tshape, dtype="float64", chunks=tch, fill_value=0)
+            return cubed.store(src, za, compute=False)
+        src = (xp.asarray(data, chunks=tch, spec=spec) + 0).rechunk(tuple(rng.randint(1, n) for n in sshape))
+        return [cubed.to_zarr(src, zarr.storage.MemoryStore(), compute=False)]
+
+    return desc, build
+
+
 def work(part, n):
     k = 0
-    while k < n:
-        prog = G.gen_program(part.rng, nstmts=part.rng.randint(1, 6), allow_zero=False, maxlen=8)
+    tries = 0
+    while k < n and tries < 10 * n:
+        tries += 1
         exname, kw = pick_config(part.rng, allow_processes=(part.tier == "thorough" or part.rng.random() < 0.08))
         og = part.rng.random() < 0.6
-        desc = {"prog": prog, "executor": exname, "kwargs": kw, "optimize_graph": og}
+        if part.rng.random() < 0.3:
+            sdesc, build = store_scenario(part.rng)
+            if exname == "processes":
+                exname = "threads"          # the in-memory targets of these scenarios do not survive a process boundary
+            prog = None
+            desc = {**sdesc, "executor": exname, "kwargs": kw, "optimize_graph": og}
+            part.count("scenario:store-" + sdesc["store"])
+        else:
+            build = None
+            prog = G.gen_program(part.rng, nstmts=part.rng.randint(1, 6), allow_zero=False, maxlen=8)
+            desc = {"prog": prog, "executor": exname, "kwargs": kw, "optimize_graph": og}
         try:
-            r = run_with_events(prog, exname, kw, og)
+            r = run_with_events(prog, exname, kw, og, prebuilt=build)
         except Exception:
             continue      # refusals / mid-run failures: C17
         k += 1
